@@ -62,6 +62,7 @@ def gen_plan(run_seed, idx, tier):
                        'flags': rng.choice(['00', '00', '01', '03', '80', '81', 'a5', '40', 'ff']),
                        'refund': refund and c == 0,
                        'keys': rng.choice(['bytes', 'bytes', 'bytes', 'object']),
+                       'witness_as': rng.choice(['bytes', 'bytes', 'object']),
                        'refund_hops': None if rng.chance(1, 2) else
                        sorted(rng.sample(range(8), rng.rng(1, 4))),
                        'timeout': rng.choice([30, 60, 3600]),
@@ -393,7 +394,8 @@ class Sim:
             elif i in ch.claimed:
                 out_w = p.durable.get((c, 'out_witness'))
                 sig = ch.claimed[i][1]
-                z = real('release_left_amhl_lock', T.release_left_amhl_lock, out_w, sig, view[2])
+                z = real('release_left_amhl_lock', T.release_left_amhl_lock,
+                         self.wit_arg(ch, out_w), sig, view[2])
                 # A4: exactly sum_{j<i} y_j mod L
                 self.run.check('A4_release_value', scalar_to_int(z) % L == ch.t_int[i - 1],
                                'C18/release/left_scalar_is_not_prefix_sum', detail={'n': ch.n, 'i': i})
@@ -406,7 +408,7 @@ class Sim:
                 # does not cost 300 retries; it never applies while faults flow)
                 if self.now > self.last_fault_at + 12 * RTO and self.msg_index > self.max_fault_index:
                     p.tries[(c, i - 1)] = tries + 1
-                sig = real('decrypt_adapter', T.decrypt_adapter, inbound, z)
+                sig = real('decrypt_adapter', T.decrypt_adapter, self.wit_arg(ch, inbound), z)
                 self.run.check('A4_decrypted_left_signature_valid',
                                ed_verify(ch.pks[i - 1], sig_message(ch.sf[i - 1], int(ch.flags, 16)), sig),
                                'C18/release/decrypted_left_adapter_is_not_a_valid_signature',
@@ -465,6 +467,12 @@ class Sim:
                 self.send(p.idx, hop, ('adapter_ack', c, hop))
         elif k == 'adapter_ack':
             p.acked.add(('adapter', c, msg[2]))
+
+    def wit_arg(self, ch, wbytes):
+        """the tools take an adapter witness as bytes or as a Script object"""
+        if ch.spec.get('witness_as') == 'object':
+            return T.Script('# adapter witness #', wbytes)
+        return wbytes
 
     def expected_adapter(self, ch, hop):
         """what the honest payer of this hop sends (deterministic signing)"""
